@@ -264,6 +264,71 @@ def main(tier_: str) -> int:
                                                           data=(b'p' * n) if n else None)
                     lines.append({'ev': 'field', 'box': 'pssh', 'field': f'v{ver} kids={nk}', 'value_class': str(n),
                                   'eq': rt_box(ps, lambda b: len(b.key_ids or []) == nk and len(b.data or b'') == n)})
+        # ---- legal values written into stored boxes (byte level) --------------------------------------
+        # every byte of a field whose whole value range is legal (integers, times, matrices, ids) or that is a
+        # character of a 4CC / string is replaced, one at a time, in the bytes of a stored box; the result is
+        # still a well-formed box of the same layout, so parse -> encode must reproduce it
+        U, C4, ST = (0x00, 0x01, 0x7F, 0x80, 0xFF), (0x20, 0x41, 0x7A, 0x34), (0x20, 0x41, 0x7E)
+        LEGAL = {
+            'ftyp': [(0, 4, C4, 'major_brand'), (4, 8, U, 'minor_version'), (8, None, C4, 'compatible_brands')],
+            'styp': [(0, 4, C4, 'major_brand'), (4, 8, U, 'minor_version'), (8, None, C4, 'compatible_brands')],
+            'mvhd': [(4, 8, U, 'creation_time'), (8, 12, U, 'modification_time'), (12, 16, U, 'timescale'), (16, 20, U, 'duration'),
+                     (20, 24, U, 'rate'), (24, 26, U, 'volume'), (36, 72, U, 'matrix'), (96, 100, U, 'next_track_id')],
+            'tkhd': [(4, 8, U, 'creation_time'), (8, 12, U, 'modification_time'), (12, 16, U, 'track_id'), (20, 24, U, 'duration'),
+                     (32, 34, U, 'layer'), (34, 36, U, 'alternate_group'), (36, 38, U, 'volume'), (40, 76, U, 'matrix'),
+                     (76, 80, U, 'width'), (80, 84, U, 'height')],
+            'mdhd': [(4, 8, U, 'creation_time'), (8, 12, U, 'modification_time'), (12, 16, U, 'timescale'), (16, 20, U, 'duration')],
+            'hdlr': [(8, 12, C4, 'handler_type'), (24, -1, ST, 'name')],
+            'mfhd': [(4, 8, U, 'sequence_number')], 'tfdt': [(4, None, U, 'base_media_decode_time')],
+            'trex': [(4, 24, U, 'defaults')], 'mehd': [(4, None, U, 'fragment_duration')],
+            'sidx': [(4, 8, U, 'reference_id'), (8, 12, U, 'timescale'), (12, 16, U, 'earliest_presentation_time'),
+                     (16, 20, U, 'first_offset'), (24, None, U, 'references')],
+            'schm': [(4, 8, C4, 'scheme_type'), (8, 12, U, 'scheme_version')], 'frma': [(0, 4, C4, 'data_format')],
+            'btrt': [(0, 12, U, 'bitrates')], 'pasp': [(0, 8, U, 'spacing')], 'tenc': [(8, 24, U, 'default_kid')],
+            'elst': [(8, None, U, 'entries')],
+        }
+        from dashlive.utils.buffered_reader import BufferedReader as _BR
+
+        def rt_bytes(raw: bytes) -> int:
+            try:
+                atoms = mp4.Mp4Atom.load(_BR(None, data=raw), options=mp4.Options(mode='rw', lazy_load=False))
+                return 1 if b''.join(bytes(a.encode()) for a in atoms) == raw else 0
+            except Exception:      # noqa: BLE001
+                return 0
+        seen_leaf: set[tuple[str, bytes]] = set()
+        nmut = 0
+        for f in files:
+            data = f.read_bytes()
+            try:
+                pw0 = Parsed(data)
+            except Exception:      # noqa: BLE001
+                continue
+            for tb in [b for b in pw0.top if b.name in ('ftyp', 'styp', 'moov', 'moof', 'sidx')][:6]:
+                for lb in [tb] + list(tb.walk()):
+                    if lb.name not in LEGAL or lb.children:
+                        continue
+                    raw = data[lb.pos:lb.end]
+                    if (lb.name, raw) in seen_leaf or rt_bytes(raw) != 1:
+                        continue        # boxes that need their parent's context are covered by the whole-tree round trips
+                    seen_leaf.add((lb.name, raw))
+                    plen = len(raw) - lb.hdr
+                    for a, b_, vals, fname in LEGAL[lb.name]:
+                        end = plen if b_ is None else (plen + b_ if b_ < 0 else b_)
+                        bad: list[str] = []
+                        n = 0
+                        for off in range(a, min(end, plen)):
+                            for val in vals:
+                                if raw[lb.hdr + off] == val:
+                                    continue
+                                m = bytearray(raw)
+                                m[lb.hdr + off] = val
+                                n += 1
+                                if rt_bytes(bytes(m)) != 1:
+                                    bad.append(f'{off}:{val:#04x}')
+                        nmut += n
+                        lines.append({'ev': 'field', 'box': lb.name, 'field': fname, 'value_class': f'bytes of {f.name} ({n} mutations)' +
+                                      (f' failing offset:value {bad[:6]}' if bad else ''), 'eq': 0 if bad else 1})
+        out.coverage['legal_byte_mutations'] = nmut
         for i, ln in enumerate(lines):
             ln['tid'] = i + 1
         vs, st = validate_trace('BoxTreeTrace', lines, workdir=d, chunk=400, parallel=10)
